@@ -1,5 +1,6 @@
-(** C14 — the specification, transcribed from the property statement and
-    written without any of the model's functions (only its data types):
+(** C14 — the specification, transcribed from the property statement.  The
+    [spec_*] functions (steps, order, inheritance, [spec_rule], [spec_default]) are
+    written without the model's factory functions (only its data types):
 
     "The effective pipeline of a rule consists, stage by stage (authentication,
     authorization/contextualization, finalization, error handling), of the rule's
@@ -12,7 +13,12 @@
     loaded."
 
     and the executable predicates the correspondence check evaluates on the
-    IMPLEMENTATION's observation. *)
+    IMPLEMENTATION's observation.  The predicates compare that observation with
+    the observation of the SPECIFICATION's effective rule; how an effective rule
+    shows in an observation is the model's business: [prop_rule] is instantiated
+    with [Model.observe] / [Model.observe_ids], [prop_set] re-uses [Model.lookup],
+    [Model.paths], [Model.old_rule_def] and [Model.observe] ([run] is characterised
+    by the C14_trace_* theorems). *)
 From HV Require Import Base.Prelude C14.Model.
 
 (** ** Steps *)
